@@ -5,6 +5,8 @@
    Model/Keys.v (for the DER containers: from asn1.Unmarshal's answer on that encoding), see
    Proofs/Keys.v.  lib / dec are the library answers that are not modelled (validity of an EC point,
    3DES); the theorems hold for all of them (lib only has to accept the key). *)
+From WI Require Model.Der.
+From WI Require Import Model.KeysDer Proofs.KeysDer.
 From WI Require Import Lib.Base Lib.Info Lib.Strings Model.Keys Proofs.Keys Proofs.KeysOpaque.
 Import gen.KeyTables.
 Open Scope N_scope.
@@ -398,3 +400,232 @@ Proof.
   destruct example_other_keys as (a & b & c & d & _). now repeat split.
 Qed.
 Print Assumptions C02_nonvacuous.
+
+(* ================================================================== *)
+(* The DER containers FROM THE BYTES (Model/KeysDer.v, Proofs/KeysDer.v): the decoding that             *)
+(* encoding/asn1.Unmarshal does for the repository's struct types is inside the model; no recorded        *)
+(* answer of Unmarshal enters these statements.  enc_* are DER writers (X.690, RFC 8017 A.1, RFC 3279);    *)
+(* int_wf n: n has at most 2^23 bits; exp_wf e: e < 2^63 (every non-negative value of Go's 64-bit int).  [rest]: the   *)
+(* bytes after the value, which every parse* function of der.go ignores.                                   *)
+(* key_description label alg n = Info label [Algorithm = alg; Size = "<bit length of n> bits"] []          *)
+(* ================================================================== *)
+
+(* PKCS#1 RSAPublicKey: for EVERY modulus and exponent the description computed from the bytes of the
+   encoding is label + RSA + the bit length of the modulus *)
+Theorem C02_pkcs1_public_from_bytes : forall n e rest, int_wf n = true -> exp_wf e = true ->
+  parse_pkcs1_public_der (enc_pkcs1_public n e ++ rest) = Ok (key_description "PKCS#1 public key" name_rsa n).
+Proof. exact pkcs1_public_der_enc. Qed.
+Print Assumptions C02_pkcs1_public_from_bytes.
+
+(* PKCS#1 RSAPrivateKey: the same, and the right-hand side mentions none of d, p, q, dP, dQ, qInv: no
+   private component is among the attribute values, for all of them *)
+Theorem C02_pkcs1_private_from_bytes : forall n e d p q dp dq qinv rest,
+  int_wf n = true -> exp_wf e = true -> int_wf d = true -> int_wf p = true -> int_wf q = true ->
+  int_wf dp = true -> int_wf dq = true -> int_wf qinv = true ->
+  parse_pkcs1_private_der (enc_pkcs1_private n e d p q dp dq qinv ++ rest)
+  = Ok (key_description "PKCS#1 private key" name_rsa n).
+Proof. exact pkcs1_private_der_enc. Qed.
+Print Assumptions C02_pkcs1_private_from_bytes.
+
+(* DSA parameters and the traditional DSA private key: Size = bit length of the prime p; x does not appear *)
+Theorem C02_dsa_parameters_from_bytes : forall p q g rest, int_wf p = true -> int_wf q = true -> int_wf g = true ->
+  parse_dsa_parameters_der (enc_dsa_parameters p q g ++ rest)
+  = Ok (Info (bs "DSA parameters") [(bs "Size", bits_value (bitlen p))] []).
+Proof. exact dsa_parameters_der_enc. Qed.
+Print Assumptions C02_dsa_parameters_from_bytes.
+
+Theorem C02_dsa_private_from_bytes : forall p q g y x rest,
+  int_wf p = true -> int_wf q = true -> int_wf g = true -> int_wf y = true -> int_wf x = true ->
+  parse_dsa_private_der (enc_dsa_private p q g y x ++ rest) = Ok (key_description "DSA private key" name_dsa p).
+Proof. exact dsa_private_der_enc. Qed.
+Print Assumptions C02_dsa_private_from_bytes.
+
+(* What the PKCS#1 public key reader accepts, for ALL bytes: one definite-length universal constructed
+   SEQUENCE with a canonical header (enc_hdr: low-tag form, minimal length octets) whose content begins with
+   two primitive INTEGERs that pass checkInteger (non-empty, minimal), the second of at most 8 octets; the
+   description is that of the first.  Contrapositive: bytes that are not of this shape are refused.
+   [extra] and [rest] are arbitrary: encoding/asn1 allows bytes after the last field of a struct inside the
+   SEQUENCE, and der.go ignores Unmarshal's rest - the real code accepts both (checked by correspondence,
+   cases tagged dec-..-surplus-.. and dec-..-after-..), so a "no surplus element" rejection does NOT hold of this code. *)
+Theorem C02_pkcs1_public_accepts_only : forall der i, bytes_ok der = true ->
+  parse_pkcs1_public_der der = Ok i ->
+  exists cn ce extra rest,
+    der = enc_seq (tlv_enc 2 false cn ++ tlv_enc 2 false ce ++ extra) ++ rest
+    /\ is_ok (der_int_dec cn) = true /\ is_ok (der_int_dec ce) = true /\ (length ce <= 8)%nat
+    /\ i = Info (bs "PKCS#1 public key") (pkcs1_attrs (twos cn)) [].
+Proof. exact pkcs1_public_der_sound. Qed.
+Print Assumptions C02_pkcs1_public_accepts_only.
+
+(* surplus content never changes what is said about the key *)
+Theorem C02_pkcs1_public_surplus_ignored : forall n e extra rest, int_wf n = true -> exp_wf e = true ->
+  N.of_nat (length extra) <= 1000000000 ->
+  parse_pkcs1_public_der (enc_seq (enc_int n ++ enc_int e ++ extra) ++ rest)
+  = Ok (key_description "PKCS#1 public key" name_rsa n).
+Proof. exact pkcs1_public_der_surplus. Qed.
+Print Assumptions C02_pkcs1_public_surplus_ignored.
+
+(* refused: the exponent missing; an outer element of any other tag number or in primitive form; a modulus
+   whose content octets are empty or not minimal *)
+Theorem C02_pkcs1_public_refused :
+  (forall n rest, int_wf n = true -> parse_pkcs1_public_der (enc_seq (enc_int n) ++ rest) = Err "asn1")
+  /\ (forall t comp body rest, t < 2147483648 -> Der.len_ok (length body) = true -> (t =? 16) && comp = false ->
+        parse_pkcs1_public_der (tlv_enc t comp body ++ rest) = Err "asn1")
+  /\ (forall c tail rest, Der.len_ok (length c) = true -> Der.len_ok (length (tlv_enc 2 false c ++ tail)) = true ->
+        is_ok (der_int_dec c) = false ->
+        parse_pkcs1_public_der (enc_seq (tlv_enc 2 false c ++ tail) ++ rest) = Err "asn1").
+Proof. exact (conj pkcs1_public_der_missing (conj pkcs1_public_der_wrong_outer pkcs1_public_der_bad_integer)). Qed.
+Print Assumptions C02_pkcs1_public_refused.
+
+Example C02_from_bytes_examples :
+  int_wf f26_n = true /\ exp_wf 65537 = true
+  /\ parse_pkcs1_public_der (enc_pkcs1_public f26_n 65537)
+     = Ok (Info (bs "PKCS#1 public key") [(bs "Algorithm", bs "RSA"); (bs "Size", bs "2047 bits")] [])
+  /\ parse_pkcs1_private_der (enc_pkcs1_private f26_n 65537 (f26_n - 2) (2 ^ 1023 + 1) (2 ^ 1023 - 1) 11 13 17)
+     = Ok (Info (bs "PKCS#1 private key") [(bs "Algorithm", bs "RSA"); (bs "Size", bs "2047 bits")] [])
+  /\ parse_dsa_parameters_der (enc_dsa_parameters (2 ^ 1022 + 7) (2 ^ 159 + 1) 5)
+     = Ok (Info (bs "DSA parameters") [(bs "Size", bs "1023 bits")] [])
+  /\ parse_dsa_private_der (enc_dsa_private (2 ^ 1022 + 7) (2 ^ 159 + 1) 5 6 7)
+     = Ok (Info (bs "DSA private key") [(bs "Algorithm", bs "DSA"); (bs "Size", bs "1023 bits")] [])
+  /\ parse_pkcs1_public_der (enc_seq (enc_int f26_n)) = Err "asn1"
+  /\ parse_pkcs1_public_der (tlv_enc 17 true (enc_int f26_n ++ enc_int 65537)) = Err "asn1"
+  /\ parse_pkcs1_public_der (enc_seq (tlv_enc 2 false [0; 1] ++ enc_int 65537)) = Err "asn1"
+  /\ parse_pkcs1_public_der (enc_seq (enc_int f26_n ++ enc_int (2 ^ 63))) = Err "asn1"
+  /\ is_ok (parse_pkcs1_public_der (enc_seq (enc_int f26_n ++ enc_int (2 ^ 63 - 1)))) = true
+  /\ is_ok (parse_pkcs1_public_der (enc_seq (enc_int f26_n ++ enc_int 65537 ++ enc_int 1) ++ [0; 0])) = true.
+Proof. exact pkcs1_der_examples. Qed.
+Print Assumptions C02_from_bytes_examples.
+
+(* SubjectPublicKeyInfo and PKCS#8 PrivateKeyInfo from the bytes: the outer structure, the
+   AlgorithmIdentifier (OID octets through parseObjectIdentifier, parameters as a RawValue), the BIT STRING /
+   OCTET STRING and the NESTED decode of the key octets / parameters are all computed by the model.
+   For every answer [inf] of the curve matcher (consulted for explicit EC parameters only), every key and
+   every [rest]: RSA (rsaEncryption, NULL parameters), DSA (id-dsa, Dss-Parms), Ed25519 (no parameters). *)
+Theorem C02_pkix_rsa_from_bytes : forall inf n e rest, int_wf n = true -> exp_wf e = true ->
+  parse_pkix_der inf (enc_spki_rsa n e ++ rest) = Ok (key_description "PKIX public key" name_rsa n).
+Proof. exact pkix_rsa_der_enc. Qed.
+Print Assumptions C02_pkix_rsa_from_bytes.
+
+Theorem C02_pkix_dsa_from_bytes : forall inf p q g y rest,
+  int_wf p = true -> int_wf q = true -> int_wf g = true -> int_wf y = true ->
+  parse_pkix_der inf (enc_spki_dsa p q g y ++ rest) = Ok (key_description "PKIX public key" name_dsa p).
+Proof. exact pkix_dsa_der_enc. Qed.
+Print Assumptions C02_pkix_dsa_from_bytes.
+
+Theorem C02_pkix_ed25519_from_bytes : forall inf pk rest, N.of_nat (length pk) <= 1000000 ->
+  parse_pkix_der inf (enc_spki_ed25519 pk ++ rest) = Ok (Info (bs "PKIX public key") ed25519_attrs []).
+Proof. exact pkix_ed25519_der_enc. Qed.
+Print Assumptions C02_pkix_ed25519_from_bytes.
+
+(* PKCS#8: the right-hand sides mention no private component (d, p, q, dP, dQ, qInv; x; the seed) *)
+Theorem C02_pkcs8_rsa_from_bytes : forall inf n e d p q dp dq qinv rest,
+  int_wf n = true -> exp_wf e = true -> int_wf d = true -> int_wf p = true -> int_wf q = true ->
+  int_wf dp = true -> int_wf dq = true -> int_wf qinv = true ->
+  parse_pkcs8_der inf (enc_pkcs8_rsa n e d p q dp dq qinv ++ rest)
+  = Ok (key_description "PKCS#8 private key" name_rsa n).
+Proof. exact pkcs8_rsa_der_enc. Qed.
+Print Assumptions C02_pkcs8_rsa_from_bytes.
+
+Theorem C02_pkcs8_dsa_from_bytes : forall inf p q g x rest,
+  int_wf p = true -> int_wf q = true -> int_wf g = true -> int_wf x = true ->
+  parse_pkcs8_der inf (enc_pkcs8_dsa p q g x ++ rest) = Ok (key_description "PKCS#8 private key" name_dsa p).
+Proof. exact pkcs8_dsa_der_enc. Qed.
+Print Assumptions C02_pkcs8_dsa_from_bytes.
+
+Theorem C02_pkcs8_ed25519_from_bytes : forall inf seed rest, N.of_nat (length seed) <= 1000000 ->
+  parse_pkcs8_der inf (enc_pkcs8_ed25519 seed ++ rest) = Ok (Info (bs "PKCS#8 private key") ed25519_attrs []).
+Proof. exact pkcs8_ed25519_der_enc. Qed.
+Print Assumptions C02_pkcs8_ed25519_from_bytes.
+
+Example C02_spki_pkcs8_from_bytes_examples :
+  parse_pkix_der (Err "oracle") (enc_spki_rsa f26_n 65537)
+     = Ok (Info (bs "PKIX public key") [(bs "Algorithm", bs "RSA"); (bs "Size", bs "2047 bits")] [])
+  /\ parse_pkix_der (Err "oracle") (enc_spki_dsa (2 ^ 1022 + 7) (2 ^ 159 + 1) 5 6)
+     = Ok (Info (bs "PKIX public key") [(bs "Algorithm", bs "DSA"); (bs "Size", bs "1023 bits")] [])
+  /\ parse_pkix_der (Err "oracle") (enc_spki_ed25519 (repeat 7 32))
+     = Ok (Info (bs "PKIX public key") [(bs "Algorithm", bs "EdDSA"); (bs "Curve", bs "Ed25519")] [])
+  /\ parse_pkcs8_der (Err "oracle") (enc_pkcs8_rsa f26_n 65537 (f26_n - 2) (2 ^ 1023 + 1) (2 ^ 1023 - 1) 11 13 17)
+     = Ok (Info (bs "PKCS#8 private key") [(bs "Algorithm", bs "RSA"); (bs "Size", bs "2047 bits")] [])
+  /\ parse_pkcs8_der (Err "oracle") (enc_pkcs8_dsa (2 ^ 1022 + 7) (2 ^ 159 + 1) 5 6)
+     = Ok (Info (bs "PKCS#8 private key") [(bs "Algorithm", bs "DSA"); (bs "Size", bs "1023 bits")] [])
+  /\ parse_pkcs8_der (Err "oracle") (enc_pkcs8_ed25519 (repeat 9 32))
+     = Ok (Info (bs "PKCS#8 private key") [(bs "Algorithm", bs "EdDSA"); (bs "Curve", bs "Ed25519")] []).
+Proof. exact spki_pkcs8_der_examples. Qed.
+Print Assumptions C02_spki_pkcs8_from_bytes_examples.
+
+(* EC keys over a named curve (P-224, P-256, P-384, P-521), from the bytes: EC parameters, the SEC1
+   ECPrivateKey with its two EXPLICITLY tagged optional fields (encoding/asn1's explicit-tag handling is in
+   the model, quirks included), SubjectPublicKeyInfo and PKCS#8 under id-ecPublicKey.  The curve shown is the
+   key's; the private scalar d / the inner key octets do not appear on the right-hand side.  [inf], the answer
+   of the curve matcher for EXPLICIT parameters (C16), is arbitrary: it is not consulted for a named curve.
+   ec_description label c = Info label [Algorithm = ECDSA; Curve = curve_shown c] [] *)
+Theorem C02_ec_parameters_from_bytes : forall inf c rest,
+  parse_ec_parameters_der inf (enc_oid (curve_oid c) ++ rest)
+  = Ok (Info (bs "EC parameters") [(bs "Curve", curve_shown c)] []).
+Proof. exact ec_parameters_named_der_enc. Qed.
+Print Assumptions C02_ec_parameters_from_bytes.
+
+Theorem C02_sec1_from_bytes : forall inf c d pub rest,
+  N.of_nat (length d) <= 1000000 -> N.of_nat (length pub) <= 1000000 ->
+  parse_sec1_der inf (enc_sec1_named (curve_oid c) d pub ++ rest) = Ok (ec_description "EC private key" c).
+Proof. exact sec1_named_der_enc. Qed.
+Print Assumptions C02_sec1_from_bytes.
+
+Theorem C02_pkix_ec_from_bytes : forall inf c point rest, N.of_nat (length point) <= 1000000 ->
+  parse_pkix_der inf (enc_spki_ec_named (curve_oid c) point ++ rest) = Ok (ec_description "PKIX public key" c).
+Proof. exact pkix_ec_named_der_enc. Qed.
+Print Assumptions C02_pkix_ec_from_bytes.
+
+Theorem C02_pkcs8_ec_from_bytes : forall inf c inner rest, N.of_nat (length inner) <= 1000000 ->
+  parse_pkcs8_der inf (enc_pkcs8_ec_named (curve_oid c) inner ++ rest) = Ok (ec_description "PKCS#8 private key" c).
+Proof. exact pkcs8_ec_named_der_enc. Qed.
+Print Assumptions C02_pkcs8_ec_from_bytes.
+
+Example C02_ec_from_bytes_examples :
+  let d := repeat 7 32 in let pub := 4 :: repeat 9 64 in let oid := enc_oid (curve_oid P256) in
+  let shown := Ok (Info (bs "EC private key") [(bs "Algorithm", bs "ECDSA"); (bs "Curve", bs "P-256 (secp256r1, prime256v1)")] []) in
+  parse_sec1_der (Err "no answer") (enc_sec1_named (curve_oid P256) d pub) = shown
+  /\ parse_ec_parameters_der (Err "no answer") oid = Ok (Info (bs "EC parameters") [(bs "Curve", bs "P-256 (secp256r1, prime256v1)")] [])
+  /\ parse_pkix_der (Err "no answer") (enc_spki_ec_named (curve_oid P384) pub)
+     = Ok (Info (bs "PKIX public key") [(bs "Algorithm", bs "ECDSA"); (bs "Curve", bs "P-384 (secp384r1)")] [])
+  /\ parse_sec1_der (Err "no answer") (enc_seq (enc_int 1 ++ enc_octets d ++ [160; 2] ++ oid)) = shown
+  /\ parse_sec1_der (Err "no answer") (enc_seq (enc_int 1 ++ enc_octets d ++ ctx_enc 0 oid ++ [5; 0])) = Err "asn1"
+  /\ parse_sec1_der (Err "no answer") (enc_seq (enc_int 1 ++ enc_octets d ++ [160; 0])) = Err "asn1".
+Proof. exact ec_der_examples. Qed.
+Print Assumptions C02_ec_from_bytes_examples.
+
+(* What the other integer-only readers accept, for ALL bytes (contrapositive: everything else is refused):
+   one canonical-header universal constructed SEQUENCE whose content begins with the struct's INTEGERs, each
+   primitive and passing checkInteger, the int-typed ones (Version, E) of at most 8 octets; the description
+   is that of the modulus / prime.  [extra] / [tail] / [rest] are arbitrary (for RSAPrivateKey the tail holds
+   the optional CRT values and otherPrimeInfos, which are decoded but never shown). *)
+Theorem C02_dsa_parameters_accepts_only : forall der i, bytes_ok der = true ->
+  parse_dsa_parameters_der der = Ok i ->
+  exists cp cq cg extra rest,
+    der = enc_seq (tlv_enc 2 false cp ++ tlv_enc 2 false cq ++ tlv_enc 2 false cg ++ extra) ++ rest
+    /\ is_ok (der_int_dec cp) = true /\ is_ok (der_int_dec cq) = true /\ is_ok (der_int_dec cg) = true
+    /\ i = Info (bs "DSA parameters") (dsa_parameter_attrs (twos cp)) [].
+Proof. exact dsa_parameters_der_sound. Qed.
+Print Assumptions C02_dsa_parameters_accepts_only.
+
+Theorem C02_dsa_private_accepts_only : forall der i, bytes_ok der = true ->
+  parse_dsa_private_der der = Ok i ->
+  exists cv cp cq cg cy cx extra rest,
+    der = enc_seq (tlv_enc 2 false cv ++ tlv_enc 2 false cp ++ tlv_enc 2 false cq ++ tlv_enc 2 false cg
+                   ++ tlv_enc 2 false cy ++ tlv_enc 2 false cx ++ extra) ++ rest
+    /\ is_ok (der_int_dec cv) = true /\ (length cv <= 8)%nat
+    /\ forallb (fun c => is_ok (der_int_dec c)) [cp; cq; cg; cy; cx] = true
+    /\ i = Info (bs "DSA private key") (dsa_attrs (twos cp)) [].
+Proof. exact dsa_private_der_sound. Qed.
+Print Assumptions C02_dsa_private_accepts_only.
+
+Theorem C02_pkcs1_private_accepts_only : forall der i, bytes_ok der = true ->
+  parse_pkcs1_private_der der = Ok i ->
+  exists cv cn ce cd cp cq tail rest,
+    der = enc_seq (tlv_enc 2 false cv ++ tlv_enc 2 false cn ++ tlv_enc 2 false ce ++ tlv_enc 2 false cd
+                   ++ tlv_enc 2 false cp ++ tlv_enc 2 false cq ++ tail) ++ rest
+    /\ is_ok (der_int_dec cv) = true /\ (length cv <= 8)%nat
+    /\ is_ok (der_int_dec ce) = true /\ (length ce <= 8)%nat
+    /\ forallb (fun c => is_ok (der_int_dec c)) [cn; cd; cp; cq] = true
+    /\ i = Info (bs "PKCS#1 private key") (pkcs1_attrs (twos cn)) [].
+Proof. exact pkcs1_private_der_sound. Qed.
+Print Assumptions C02_pkcs1_private_accepts_only.
